@@ -301,14 +301,19 @@ theorem entryLoop_single (ts : List Tok) (r : RNode) (he : (entryLoop ts).errs =
 
 /-! ### root level -/
 
+/-- what can follow an ENTRY among the children of an error-free ROOT: nothing, or WHITESPACE / NEWLINE
+    tokens and then a COMMA token -/
+def Follow (ns : List RNode) : Prop :=
+  ns = [] ∨ ∃ w c more, ns = w ++ tk c :: more ∧ (∀ n ∈ w, isWsTok n = true) ∧ c.1 = Kind.COMMA
+
 /-- children of an error-free ROOT, front to back: WHITESPACE / NEWLINE / COMMA tokens and ENTRY nodes;
     an ENTRY is what `parse_entry` builds when entered at an IDENT token `t`, and when `parse_entry`
-    consumed the whole input nothing follows it -/
+    consumed the whole input nothing follows it; in any case what follows is `Follow` -/
 inductive RootShape : List RNode → Prop
   | nil : RootShape []
   | sep (n : RNode) (ns : List RNode) : isSepTok n = true → RootShape ns → RootShape (n :: ns)
   | entry (t : Tok) (r : List Tok) (ns : List RNode) : t.1 = .IDENT → (entryLoop (t :: r)).errs = [] →
-      ((entryLoop (t :: r)).rest = [] → ns = []) → RootShape ns →
+      ((entryLoop (t :: r)).rest = [] → ns = []) → Follow ns → RootShape ns →
       RootShape (Node.node .ENTRY (entryLoop (t :: r)).nodes :: ns)
 
 theorem RootShape.seps {a b : List RNode} (ha : ∀ n ∈ a, isSepTok n = true) (hb : RootShape b) :
@@ -324,10 +329,11 @@ theorem RootShape.wss {a b : List RNode} (ha : ∀ n ∈ a, isWsTok n = true) (h
 theorem RootShape.cons_inv {e : RNode} {b : List RNode} (h : RootShape (e :: b)) :
     (isSepTok e = true ∧ RootShape b) ∨
     ∃ t r, t.1 = Kind.IDENT ∧ e = Node.node .ENTRY (entryLoop (t :: r)).nodes ∧
-      (entryLoop (t :: r)).errs = [] ∧ ((entryLoop (t :: r)).rest = [] → b = []) ∧ RootShape b := by
+      (entryLoop (t :: r)).errs = [] ∧ ((entryLoop (t :: r)).rest = [] → b = []) ∧ Follow b ∧
+      RootShape b := by
   cases h with
   | sep _ _ h1 h2 => exact Or.inl ⟨h1, h2⟩
-  | entry t r _ h1 h2 h3 h4 => exact Or.inr ⟨t, r, h1, rfl, h2, h3, h4⟩
+  | entry t r _ h1 h2 h3 hf h4 => exact Or.inr ⟨t, r, h1, rfl, h2, h3, hf, h4⟩
 
 theorem isSepTok_not_node {n : RNode} {k} (h : isSepTok n = true) : (n.isNode && n.kind == k) = false := by
   cases n with
@@ -345,7 +351,7 @@ theorem RootShape.all_sep {ns : List RNode} (h : RootShape ns)
     rcases hx with rfl | hx
     · exact h1
     · exact ih (fun y hy => hn y (by simp [hy])) x hx
-  | entry t r ns h1 h2 h3 h4 ih =>
+  | entry t r ns h1 h2 h3 hf h4 ih =>
     have := hn _ (List.mem_cons_self)
     simp [Node.isNode, Node.kind] at this
 
@@ -407,6 +413,26 @@ theorem rootSep_shape (c : Tok) (he : (rootSep c).2 = []) : ∀ n ∈ (rootSep c
   · rename_i h; simp [isSepTok, h]
   · rename_i h; rw [if_neg h] at he; simp at he
 
+theorem rootSep_comma (c : Tok) (he : (rootSep c).2 = []) : (rootSep c).1 = [tk c] ∧ c.1 = .COMMA := by
+  unfold rootSep at he ⊢
+  split
+  · rename_i h; exact ⟨rfl, h⟩
+  · rename_i h; rw [if_neg h] at he; simp at he
+
+theorem skipWs_rest_nil_of_peek {ts} (h : peekPastWs ts = none) : (skipWs ts).rest = [] := by
+  rw [peek_eq_cur_skip] at h
+  cases hr : (skipWs ts).rest with
+  | nil => rfl
+  | cons a b => rw [hr] at h; simp [cur] at h
+
+/-- `parse_entry` returns at end of input or in front of (white space and) a COMMA -/
+theorem entryLoop_exit (ts) : (entryLoop ts).rest = [] ∨ peekPastWs (entryLoop ts).rest = some .COMMA := by
+  fun_induction entryLoop ts
+  next x hc => exact Or.inr hc
+  next x hc hp ih => exact ih
+  next x hc hp hn => exact Or.inl (skipWs_rest_nil_of_peek hn)
+  next x hc hp hn ih => exact ih
+
 theorem rootLoop_shape (ts : List Tok) (he : (rootLoop false ts).errs = []) :
     RootShape (rootLoop false ts).nodes := by
   fun_induction rootLoop false ts
@@ -416,9 +442,15 @@ theorem rootLoop_shape (ts : List Tok) (he : (rootLoop false ts).errs = []) :
     rcases rootFirst_shape t r he with ⟨h1, h2⟩ | ⟨ht, h1, h2, h3⟩
     · rw [h1]; simpa using RootShape.wss (skipWs_nodes_ws (rootFirst false t r).rest) RootShape.nil
     · rw [h1]
-      refine RootShape.entry t r _ ht h2 ?_ ?_
+      have hnil : (skipWs (rootFirst false t r).rest).nodes = [] := by
+        rw [h3] at h ⊢
+        rcases entryLoop_exit (t :: r) with hx | hx
+        · rw [hx]; simp [skipWs]
+        · rw [peek_eq_cur_skip, h] at hx; simp [cur] at hx
+      refine RootShape.entry t r _ ht h2 ?_ ?_ ?_
       · intro hr
         rw [h3, hr]; simp [skipWs]
+      · left; simpa using hnil
       · simpa using RootShape.wss (skipWs_nodes_ws (rootFirst false t r).rest) RootShape.nil
   next t r c r2 h ih =>
     simp only [List.append_eq_nil_iff] at he
@@ -431,9 +463,12 @@ theorem rootLoop_shape (ts : List Tok) (he : (rootLoop false ts).errs = []) :
     rcases rootFirst_shape t r he1 with ⟨h1, h2⟩ | ⟨ht, h1, h2, h3⟩
     · rw [h1]; exact tail
     · rw [h1]
-      refine RootShape.entry t r _ ht h2 ?_ tail
-      intro hr
-      rw [h3, hr] at h
-      simp [skipWs] at h
+      refine RootShape.entry t r _ ht h2 ?_ ?_ tail
+      · intro hr
+        rw [h3, hr] at h
+        simp [skipWs] at h
+      · right
+        obtain ⟨hc1, hc2⟩ := rootSep_comma c he2
+        exact ⟨_, c, _, by rw [hc1]; rfl, skipWs_nodes_ws _, hc2⟩
 
 end Deb822Verif.Rel
